@@ -335,6 +335,9 @@ def run_case(case):
         if not bad:
             for q in ('dE', 'dh', 'de', 'dt'):
                 worst[q] = max(worst[q], be[q] / env)
+                if be[q] / env > worst.get('max', 0):
+                    worst['max'] = be[q] / env
+                    worst['argmax'] = dict(q=q, orbit=o, integ=case.get('integ') or 'solver', be={k: be[k] for k in ('dE', 'dh', 'de', 'dt')}, env=env)
         dec = int(math.floor(math.log10(abs(o['dtP']))))
         cells.add(json.dumps([case.get('integ') or 'solver', o['ecls'], o['phase'], 1 if dt > 0 else -1, dec]))
     os.close(fd)
@@ -376,8 +379,12 @@ def main(tier, seed):
         for c, rr in zip(cs, res):
             V.absorb(c, rr, crash_mech)
             if rr and 'worst' in rr:
-                for q in worst:
+                for q in ('dE', 'dh', 'de', 'dt'):
                     worst[q] = max(worst[q], rr['worst'][q])
+                key = 'max_direct' if c['kind'] == 'direct' else 'max_step'
+                if rr['worst'].get('max', 0) > worst.get(key, 0):
+                    worst[key] = rr['worst']['max']
+                    worst['arg' + key] = rr['worst'].get('argmax')
     inc = []
     for k in ('calls', 'steps', 'oracle_evals'):
         if V.counters.get(k, 0) == 0:
